@@ -145,7 +145,7 @@ def run(ctx):
     ctx.assumptions += ["the file is readable (an unreadable or missing file makes `expect` abort by design; outside the property)",
                         "file contents shorter than 2^63 bytes"]
     return C.finish(ctx, level="proof", checker_cmd="lake build Rspirv.Props.C04 + #print axioms; cargo build -p rspirv-dis",
-                    rule="the real binary built from the working tree is run on every file: pre-fix panic corpus, seeded modules and their systematic corruptions (truncation, substitution, word-count/opcode corruption, instruction drop/dup/swap), all structural words of length <= 4, random bytes, the empty file; judged against the library run in-process and against the Lean model of main; distinct non-trivial = distinct error message kinds",
+                    rule="the real binary built from the working tree is run on every file: pre-fix panic corpus, seeded modules and their systematic corruptions (truncation, substitution, word-count/opcode corruption, instruction drop/dup/swap), all structural words of length <= 4, random bytes, the empty file; judged against the library run in-process and against the Lean model of main; last and middle lines of 990..1030, 2^11, 2^12, 2^13, 2^16 and 70 000 bytes; distinct non-trivial = distinct error message kinds",
                     trusted=["hand models + differential harness", "subprocess execution of target/debug/rspirv-dis"])
 
 
